@@ -61,6 +61,14 @@ FAMILIES = {
             "random-number-generator(1)?next()?number"],
     'regex': ["matches('abc', '\\p{L}+')", "replace('a1b2', '\\d', 'x')", "tokenize('a b  c')", "matches('Ab', '^[\\w-[b]]+$')",
               "analyze-string('a1b22', '\\d+')//*:match/string()", "matches('x', '\\p{IsGreek}|\\P{Lu}')"],
+    # patterns that depend on the context are translated at evaluation time, inside the threads: the lazily built
+    # tables behind \\w \\d \\s \\i \\c \\p{..} are then built (once per process) while other threads need them
+    'regexdyn': ["matches('a.b_1', concat('^[\\w.]+$', substring(name(/*), 99)))", "matches('12-3', concat('^[\\d-]+$', substring(name(/*), 99)))",
+                 "replace('a b\tc', concat('[\\s]', substring(name(/*), 99)), '_')", "tokenize('a1b22c', concat('\\d+', substring(name(/*), 99)))",
+                 "matches('xml:id', concat('^\\i\\c*$', substring(name(/*), 99)))", "matches('é', concat('^\\p{L}$', substring(name(/*), 99)))",
+                 "matches('A1', concat('^[\\p{Lu}\\d]+$', substring(name(/*), 99)))", "matches('_x', concat('^[^\\W]+$', substring(name(/*), 99)))",
+                 "matches('a-b', concat('^[\\w-[_]]+-[\\w]+$', substring(name(/*), 99)))", "count(tokenize('a, b;c', concat('[\\W\\s]+', substring(name(/*), 99))))",
+                 "matches('α', concat('^\\p{IsGreek}$', substring(name(/*), 99)))", "replace('ab12', concat('[\\D]', substring(name(/*), 99)), '#')"],
     'serial': ["serialize((//a)[1])", "parse-xml('<z><y>1</y></z>')//y/string()", "serialize(map{'a': 1}, map{'method': 'json'})",
                "json-to-xml('{\"a\": [1, 2]}')//*:number/string()", "xml-to-json(json-to-xml('[1, true, null]'))",
                "serialize(parse-xml('<p:z xmlns:p=\"urn:q\"/>'))"],
@@ -108,7 +116,7 @@ def gen_case(rng, tier):
     installed = sorted(rng.sample(ALL_LOCALES, rng.choice([0, 1, 2, 3])))
     threads = []
     # some runs make every thread work on the same family of functions (same lazily built state, same globals)
-    family = rng.choice(sorted(FAMILIES) + ['collation', 'collation']) if rng.random() < 0.35 else None
+    family = rng.choice(sorted(FAMILIES) + ['collation', 'collation', 'regexdyn']) if rng.random() < 0.4 else None
     for _ in range(nthreads):
         prog = []
         for _j in range(rng.choice([1, 1, 2, 3] if thorough else [1, 1, 2])):
@@ -250,7 +258,8 @@ def run_case(case, world):
         env0 = dict(os.environ)
         results = {}
         dec_ok = {}
-        sched = BatonScheduler(world, cfg['strategy'], decisions=case.get('decisions'))
+        # building the table behind \w takes about two million line events, and every thread may build it
+        sched = BatonScheduler(world, cfg['strategy'], decisions=case.get('decisions'), step_cap=40_000_000)
         loc.log = lambda ev_: (world.event(ev_), world.point('setlocale'))
 
         def body(t):
